@@ -23,10 +23,10 @@ CLAIMS = {
         text="READER half (Verus, unbounded): inv = the read-ahead cache holds only bytes below the flushed offset loaded when it was filled, equal to the file; read() serves exactly file.disk()[offset..offset+length] for every request below the flushed offset (hit or refill) and re-establishes inv; fill() covers the request window; overlaps() is exact interval overlap. WRITER half (Kani, bounded): the flushed offset is only ever advanced to the write offset after the buffered bytes reached the file and sync_data was called; truncation lowers it and keeps bytes below intact; appends publish nothing. Hence no reader can be handed an offset whose bytes are not in the file.",
         note="category `other` because the writer half is a bounded stand-in; the reader-cache obligations are discharged by Verus (counted in obligations/discharged). ASSUMED: FileExt::read_at returns bytes of the file (per-call snapshot); bytes below the flushed offset do not change between calls (writer contract) — so Reader::read_record_sequential / Iter see exactly the flushed bytes through the cache; their record decoding is C17. After an I/O error inside fill the invariant is not claimed (fill does not reset valid_len: candidate, DESIGN A.5). Known finding: a long-lived reader's cache is not invalidated when already-flushed records are truncated (set_len below the flushed offset) — not reachable from sierradb, which only truncates unflushed tails."),
     "C19": dict(
-        category="other", design_ref="§5 U02",
-        technique="Kani/CBMC inductive-step harness on Writer::append / prepare_data over arbitrary writer position and segment size",
-        text="Bounded stand-in: append returns SegmentFull exactly when write offset + 8 + H + stored length exceeds the segment size (stored length = data, or 4 + codec output when compression applies), otherwise succeeds at the old offset; a refused append changes neither offset.",
-        note="PARTIAL: the seglog layer only. NOT decided: the database's size estimate and rollover decision in Worker::handle_append_events (the estimate ignores compression expansion: candidate in DESIGN §10, not under contract), retry behaviour. zstd's output size is modelled as data + 1."),
+        category="other", design_ref="§5 U02, A.3 U19",
+        technique="Kani/CBMC on (a) Writer::append / prepare_data extracted verbatim (inductive step over arbitrary writer states; refusal contract with compression on/off, compressible and incompressible data) and (b) a SLICE (R5) of Worker::handle_append_events lifted verbatim: the size estimate, the EventsExceedSegmentSize rejection and the rollover decision",
+        text="Bounded stand-in, two contracts that compose: (a) seglog: an append is refused for lack of space ONLY IF write offset + the UNCOMPRESSED record size exceeds the segment size, a stored record is never larger than its uncompressed form, a refused append changes nothing; (b) writer thread: a transaction is rejected with EventsExceedSegmentSize IFF its uncompressed stored size does not fit an empty segment, otherwise the segment is rolled over (once, before the write) IFF it does not fit the live segment's free space - so the write always starts where the uncompressed records fit, and by (a) is never refused: no SegmentFull, hence no retry that fails forever.",
+        note="`stored size` is read as the UNCOMPRESSED record size (the size the database budgets for): a compressible transaction larger than a segment is rejected by design. Contract (a) found the defect fixed in 86f6510 (incompressible data grew under compression past the estimate). ASSUMED: the record format sizes (bincode encoding of RawEvent / RawCommit: external crate) restated in the U19 harness; the real zstd is replaced by a model codec that shrinks runs and expands everything else. Bounded: <= 2 events per transaction (lengths symbolic), 7-byte data in (a)."),
     "C02": dict(
         category="other", design_ref="§4 C25 (U04), §5 U12",
         technique="Verus proof + complete Kani harnesses on validate_partition_sequence / ExpectedVersion algebra (U04) and bounded Kani harnesses on WriterSet::validate_event_versions extracted verbatim (model HashMap, index lookup behind a contract) against the one spec `accepts`",
